@@ -378,10 +378,14 @@ func (l *BasicLifecycler) waitStableTokens(ctx context.Context, period time.Dura
 	level.Info(l.logger).Log("msg", "waiting stable tokens", "ring", l.ringName)
 	observeChan := time.After(period)
 
+	// Heartbeats refresh the in-memory instance from the ring, tokens included, so the tokens
+	// this instance has registered are remembered here to verify the ring against them.
+	registeredTokens := l.GetTokens()
+
 	for {
 		select {
 		case <-observeChan:
-			if !l.verifyTokens(ctx) {
+			if !l.verifyTokens(ctx, &registeredTokens) {
 				// The verification has failed
 				level.Info(l.logger).Log("msg", "tokens verification failed, keep observing", "ring", l.ringName)
 				observeChan = time.After(period)
@@ -403,14 +407,14 @@ func (l *BasicLifecycler) waitStableTokens(ctx context.Context, period time.Dura
 // Verifies that tokens that this instance has registered to the ring still belong to it.
 // Gossiping ring may change the ownership of tokens in case of conflicts.
 // If instance doesn't own its tokens anymore, this method generates new tokens and stores them to the ring.
-func (l *BasicLifecycler) verifyTokens(ctx context.Context) bool {
+func (l *BasicLifecycler) verifyTokens(ctx context.Context, registeredTokens *Tokens) bool {
 	result := false
 
 	err := l.updateInstance(ctx, func(r *Desc, i *InstanceDesc) bool {
 		// At this point, we should have the same tokens as we have registered before.
 		actualTokens, takenTokens := r.TokensFor(l.cfg.ID)
 
-		if actualTokens.Equals(l.GetTokens()) {
+		if actualTokens.Equals(*registeredTokens) {
 			// Tokens have been verified. No need to change them.
 			result = true
 			return false
@@ -426,6 +430,7 @@ func (l *BasicLifecycler) verifyTokens(ctx context.Context) bool {
 		sort.Sort(actualTokens)
 
 		i.Tokens = actualTokens
+		*registeredTokens = actualTokens
 		return true
 	})
 
